@@ -117,6 +117,9 @@ func (en *Engine) functionsFor(prop string) []string {
 				serves = serves || hasProp(cl.Props, prop)
 			}
 		}
+		for _, ec := range ct.Effects {
+			serves = serves || hasProp(ec.Props, prop) || (len(ec.Props) == 0 && hasProp(ct.Props, prop))
+		}
 		if serves {
 			keys = append(keys, k)
 		}
@@ -226,6 +229,7 @@ func runCheck(opts checkOpts) (int, map[string]any) {
 	var notes, assumed, closed []string
 	usedAx := map[string]bool{}
 	var missing []string
+	var effAll []effResult
 	type job struct {
 		k  string
 		fn *ssa.Function
@@ -245,6 +249,13 @@ func runCheck(opts checkOpts) (int, map[string]any) {
 		if fn == nil || fn.Blocks == nil {
 			missing = append(missing, k)
 			continue
+		}
+		if ct := en.cs.Funcs[k]; len(ct.Effects) > 0 {
+			effRes := en.checkEffects(fn, ct, opts.prop)
+			effAll = append(effAll, effRes...)
+			if len(ct.Requires)+len(ct.Ensures)+len(ct.LoopInv) == 0 {
+				continue
+			}
 		}
 		vc := en.verifyFunc(fn, en.cs.Funcs[k], ff.Findings...)
 		engineErrs = append(engineErrs, vc.errs...)
@@ -267,7 +278,7 @@ func runCheck(opts checkOpts) (int, map[string]any) {
 		sort.Strings(engineErrs)
 		return fail("code outside the supported subset or unusable contract: " + strings.Join(uniq(engineErrs), "; "))
 	}
-	if len(all) == 0 {
+	if len(all) == 0 && len(effAll) == 0 {
 		return fail("zero obligations generated")
 	}
 	// lock: every clause recorded for the property must still produce obligations
@@ -282,6 +293,16 @@ func runCheck(opts checkOpts) (int, map[string]any) {
 			continue // these depend on the shape of the code, not on the contract clauses
 		}
 		have[clauseKey(r.O.Name)] = true
+	}
+	for _, er := range effAll {
+		n := er.name
+		if j := strings.Index(n, ":"); j > 0 {
+			n = n[:j]
+		}
+		if j := strings.Index(n, "("); j > 0 && strings.Contains(n, "/effects.") {
+			n = n[:j]
+		}
+		have[n] = true
 	}
 	if opts.writeLock {
 		lock.Clauses[opts.prop] = sortedKeys(have)
@@ -323,7 +344,7 @@ func runCheck(opts checkOpts) (int, map[string]any) {
 	}
 	var slows []slow
 	knownPrinted := map[string]bool{}
-	var coverFails, deadReturns []string
+	var coverFails, deadReturns, effLines []string
 	pathTotal, pathDead := map[string]int{}, map[string]int{}
 	for i, r := range all {
 		r.R = res[i]
@@ -392,6 +413,37 @@ func runCheck(opts checkOpts) (int, map[string]any) {
 		r.Status = "violation"
 		violations++
 	}
+	effDischarged := 0
+	var effSamples []any
+	for _, er := range effAll {
+		if er.ok {
+			effDischarged++
+			if len(effSamples) < 4 {
+				effSamples = append(effSamples, map[string]any{"obligation": er.name, "kind": "effects", "clause": er.what, "result": "holds (static write-effect analysis over the SSA call graph)", "functions_scanned": er.scanned, "write_sites_scanned": er.sites})
+			}
+			continue
+		}
+		matched := false
+		for _, f := range ff.Findings {
+			if f.Property == opts.prop && f.Function == er.fn && f.re.MatchString(strings.TrimPrefix(er.name, er.fn+"/")) {
+				matched = true
+				known++
+				if !knownPrinted[f.ID] {
+					knownPrinted[f.ID] = true
+					lines = append(lines, fmt.Sprintf("KNOWN-FINDING: property=%s %s %s: %s (%s)", opts.prop, f.ID, f.Function, f.What, er.what))
+				}
+			}
+		}
+		if !matched {
+			violations++
+			rp := filepath.Join(opts.verif, "out", "replay", safeName.ReplaceAllString(opts.prop+"__"+er.name, "_")+".json")
+			os.MkdirAll(filepath.Dir(rp), 0o755)
+			data, _ := json.MarshalIndent(map[string]any{"property": opts.prop, "obligation": er.name, "kind": "effects", "what": er.what, "write_sites": er.where,
+				"failing_input_found": false, "note": "frame obligation decided by static write-effect analysis: there is no input to replay; the offending write sites are listed"}, "", " ")
+			os.WriteFile(rp, data, 0o644)
+			effLines = append(effLines, fmt.Sprintf("VIOLATION property=%s replay=%s obligation=%s no-failing-input-found", opts.prop, rp, er.name))
+		}
+	}
 	for fn, n := range pathTotal {
 		if n > 0 && pathDead[fn] == n {
 			coverFails = append(coverFails, fn+": no return site is reachable under the contract")
@@ -420,6 +472,7 @@ func runCheck(opts checkOpts) (int, map[string]any) {
 		}
 		lines = append(lines, fmt.Sprintf("VIOLATION property=%s replay=%s obligation=%s%s", opts.prop, rp, r.O.Name, suffix))
 	}
+	lines = append(lines, effLines...)
 	for _, l := range lines {
 		fmt.Println(l)
 	}
@@ -433,9 +486,12 @@ func runCheck(opts checkOpts) (int, map[string]any) {
 				"result": r.R.Status, "backend": r.R.Backend, "time_s": r.R.Time, "smt_bytes": fileSize(r.File)})
 		}
 	}
-	total := len(all) - covers
+	total := len(all) - covers + len(effAll)
+	discharged += effDischarged
+	samples = append(samples, effSamples...)
 	cov["obligations"] = total
 	cov["discharged"] = discharged + known
+	cov["effect_obligations"] = len(effAll)
 	cov["discharged_unconditionally"] = discharged
 	cov["discharged_only_outside_known_finding_regions"] = known
 	cov["undischarged"] = violations
